@@ -543,6 +543,11 @@ class InterpCore(object):
 
     def compare(self, op, a, b, node=None):
         opn = type(op).__name__
+        # comparisons of library-model objects that compare elementwise (arrays)
+        if type(a).__name__ == "PyObjV" and hasattr(a.obj, "compare") and opn not in ("Is", "IsNot", "In", "NotIn"):
+            return a.obj.compare(self, op, b)
+        if type(b).__name__ == "PyObjV" and hasattr(b.obj, "compare") and opn not in ("Is", "IsNot", "In", "NotIn"):
+            return b.obj.compare(self, op, a, reflected=True)
         if opn in ("Is", "IsNot") and (isinstance(a, Phi) != isinstance(b, Phi)) \
                 and (_is_sentinel(a) or _is_sentinel(b)):
             # identity of a conditional value with a sentinel object: decided in each branch
@@ -614,8 +619,43 @@ class InterpCore(object):
             return {"Lt": not big_left, "LtE": not big_left, "Gt": big_left, "GtE": big_left}[opn]
         if sx and sy:
             return {"Lt": sx < sy, "LtE": sx <= sy, "Gt": sx > sy, "GtE": sx >= sy}[opn]
+        sgn = self.sign_by_intervals(x - y)
+        if sgn is not None:
+            lo_s, hi_s = sgn      # the difference lies in an interval whose ends have these signs (-1, 0, 1), ends excluded
+            if lo_s >= 0 and hi_s >= 0:
+                return {"Lt": False, "LtE": False, "Gt": True, "GtE": True}[opn]        # strictly positive inside
+            if lo_s <= 0 and hi_s <= 0:
+                return {"Lt": True, "LtE": True, "Gt": False, "GtE": False}[opn]
         sym = {"Lt": "<", "LtE": "<=", "Gt": ">", "GtE": ">="}[opn]
         return Cond("cmp", sym, Num(x), Num(y))
+
+    def affine_range(self, d):
+        """(lo, hi): the open interval of values of d when it is an affine function with concrete coefficients of exactly one
+        symbol that has a declared open interval (self.sym_intervals: name -> (lo, hi)); None otherwise"""
+        iv = getattr(self, "sym_intervals", None)
+        if not iv:
+            return None
+        names = [n for n in iv if d.depends_on(n)]
+        if len(names) != 1:
+            return None
+        n = names[0]
+        try:
+            c = ep.D(d, n).as_const()
+            b = ep.substitute(d, {n: ep.const(0)}).as_const()
+        except ep.Unsupported:
+            return None
+        if c is None or b is None or c == 0:
+            return None
+        lo, hi = iv[n]
+        v0, v1 = c * lo + b, c * hi + b
+        return (min(v0, v1), max(v0, v1))
+
+    def sign_by_intervals(self, d):
+        r = self.affine_range(d)
+        if r is None:
+            return None
+        sg = lambda v: (v > 0) - (v < 0)
+        return sg(r[0]), sg(r[1])
 
     def isnone_of(self, v):
         """'v is None' - decided through conditional values whose arms are plainly None / not None"""
@@ -656,6 +696,9 @@ class InterpCore(object):
                 return ca == cb
             if ep.equal(a.rf, b.rf)[0]:
                 return True
+            sgn = self.sign_by_intervals(a.rf - b.rf)
+            if sgn is not None and ((sgn[0] >= 0 and sgn[1] >= 0) or (sgn[0] <= 0 and sgn[1] <= 0)):
+                return False        # the difference keeps one strict sign over the symbol's open interval
             return Cond("cmp", "==", a, b)
         nonea = isinstance(a, Const) and a.v is None
         noneb = isinstance(b, Const) and b.v is None
